@@ -89,7 +89,7 @@ CT_TYPES = [b"text/plain", b"application/json", b"text/event-stream", b"applicat
 CT_PARAMS = [b"", b"; charset=utf-8", b"; charset=", b"; charset", b"; utf-8", b"; =", b";", b"; ", b";;", b"; charset = utf-8",
              b'; charset="utf-8"', b"; charset=nonexistent", b"; boundary=xx", b"; a=b; c", b"; a; b=c", b"; charset=utf-8; q",
              b";charset=latin-1", b"; charset=utf-8;"]
-CT_BODIES = [b"\xc3\xa9\xff{", b'{"a": 1}']
+CT_BODIES = [b"\xc3\xa9\xff{", b'{"a": 1}', b'{"n": "\\ud800", "e": "\xc3\xa9"}']      # last: valid JSON with an escaped lone surrogate and a non-ASCII letter
 
 
 def ct_message(side, ti, pi, bi):
@@ -351,6 +351,12 @@ def run_job(job, tier, seed):
         for data in sse_responses():
             do(data)
             do(data, split=len(data) - 4)
+        # CRLF and bare-CR line ends, the stream cut at every position (also between a CR and its LF, after a final CR)
+        head = b"HTTP/1.1 200 OK\r\nContent-Type: text/event-stream\r\n\r\n"
+        for eol in (b"\r\n", b"\r"):
+            body = b"id: 1" + eol + b"data: a" + eol + eol + b"data: b" + eol + eol
+            for k in range(len(head), len(head) + len(body)):
+                do(head + body, split=k)
     elif kind == "ctype":
         ti = job[2]
         side = "rsp" if sysname == "client" else "req"
